@@ -518,7 +518,7 @@ func (s *Session) processIncSeq(incomingLogon messages.LogonBuilder) {
 
 	if currSeqNum+1 < incSeqNum {
 		resendMsg := s.MessageBuilders.ResendRequestBuilder.New()
-		resendMsg.SetFieldBeginSeqNo(currSeqNum)
+		resendMsg.SetFieldBeginSeqNo(currSeqNum + 1)
 		resendMsg.SetFieldEndSeqNo(0)
 		s.sendWithErrorCheck(resendMsg)
 	}
